@@ -401,12 +401,8 @@ private:
         e.m_lfu_position = m_lfu_list.emplace(use_count + 1, e.m_keyed_position->second);
 
         // Update dynamic aging position.
-        auto last_aged_item = std::prev(m_open_list_end);
-        // swap to the end of the aged list and update its time.
-        if (e.m_keyed_position->second != last_aged_item)
-        {
-            m_dynamic_age_list.splice(last_aged_item, m_dynamic_age_list, e.m_keyed_position->second);
-        }
+        // move to the end of the in use aged list (most recently used) and update its time.
+        m_dynamic_age_list.splice(m_open_list_end, m_dynamic_age_list, e.m_keyed_position->second);
         e.m_dynamic_age = now;
     }
 
